@@ -10,7 +10,8 @@ classes the specification names; inherited-ness comes from the specification's c
 initial values of ~95 well-known properties are pinned to their CSS text.
 Mode "dependent": computed values that depend on other properties of the element (CSS 2.1 9.7 / CSS Display 3 2.7
 blockification and float, widths of borders / outline / column rule under style none or hidden, bleed under marks); TLC
-checks BlockifyLaws. After-boxes: `inherit` through a table / inline-table / list-item / flex parent is compared on the boxes
+checks BlockifyLaws. Mode "custom": custom properties declared on any subset of a four-node tree with siblings, the styles asked
+for in every order: a declaration is visible in the sub-tree of its element only (Scoped). After-boxes: `inherit` through a table / inline-table / list-item / flex parent is compared on the boxes
 produced by layout (box building copies and edits styles).
 """
 import json
@@ -21,7 +22,7 @@ CFG = """CONSTANTS
   Mode = "%s"
 INIT Init
 NEXT Next
-INVARIANTS OrderIndependent Total UnitRatios BlockifyLaws EmitScn EmitMeta
+INVARIANTS OrderIndependent Total UnitRatios BlockifyLaws Scoped EmitScn EmitMeta
 CHECK_DEADLOCK FALSE
 """
 
@@ -30,7 +31,7 @@ def run(ctx):
     counts = {}
     comp = 0
     meta = os.path.join(ctx.scratch, "meta.json")
-    for mode in ("kinds", "units", "weights", "dependent"):
+    for mode in ("kinds", "units", "weights", "dependent", "custom"):
         res = ctx.tlc("Defaulting", None, workers=16, cfg_text=CFG % mode, timeout=900)
         scn, cnt, first = ctx.scenario_lines(res)
         if cnt == 0:
